@@ -367,14 +367,41 @@ def search(ctx):
                 for f in attribute(cfg, f'results differ in a fresh interpreter (PYTHONHASHSEED={hs}, global draws before the sim): {bad[:4]}', channel='fresh-interpreter/hash-seed'):
                     ctx.fail(f['signature'], f['what'], dict(kind='subprocess', cfg=cfg))
                 break
-    # changing the seed changes every distribution's stream
+    # changing the seed changes every distribution's stream: its seed, and what is actually drawn from it
     for k in range(ctx.budget(3, 20)):
         cfg = impl.gen_sim_config(ctx.rng, small=True)
-        s1 = dict(seeds_inproc(cfg)); cfg2 = dict(cfg); cfg2['rand_seed'] = cfg['rand_seed'] + ctx.rng.randint(1, 50)
-        s2 = dict(seeds_inproc(cfg2))
-        same = [t for t in s1 if s1[t] == s2.get(t)]
-        if same or set(s1) != set(s2):
-            ctx.fail(dict(oracle='seed-change'), f'changing rand_seed left the seed of {same[:4]} unchanged', dict(kind='seedchange', cfg=cfg, cfg2=cfg2))
+        cfg2 = dict(cfg); cfg2['rand_seed'] = cfg['rand_seed'] + ctx.rng.randint(1, 50)
+        msg = oracle_seed_change(cfg, cfg2)
+        if msg:
+            ctx.fail(dict(oracle='seed-change', what=msg[0]), msg[1], dict(kind='seedchange', cfg=cfg, cfg2=cfg2))
+    for net in ('static', 'random', 'erdosrenyi', 'disk', 'mf'):   # always exercised: every random network type
+        cfg = dict(n_agents=120, rand_seed=11, unit='year', dt=1.0, start=2000, dur=3, demographics=[],
+                   diseases=[dict(type='sis', beta=0.2, init_prev=0.2)], networks=[dict(type=net, **({'n_contacts': 4} if net in ('static', 'random') else {}))])
+        msg = oracle_seed_change(cfg, dict(cfg, rand_seed=12))
+        if msg:
+            ctx.fail(dict(oracle='seed-change', what=msg[0]), msg[1], dict(kind='seedchange', cfg=cfg, cfg2=dict(cfg, rand_seed=12)))
+
+
+RANDOM_NETS = ('static', 'random', 'erdosrenyi', 'disk', 'mf', 'msm', 'embedding')
+
+
+def oracle_seed_change(cfg, cfg2):
+    """ two simulations that differ only in rand_seed: every distribution's seed differs, and the realised random
+        structures (initial edges of every random network type, initial infections) differ """
+    s1 = dict(seeds_inproc(cfg)); s2 = dict(seeds_inproc(cfg2))
+    same = [t for t in s1 if s1[t] == s2.get(t)]
+    if same or set(s1) != set(s2):
+        return 'dist-seed', f'changing rand_seed left the seed of {same[:4]} unchanged'
+    a = make_sim(cfg); b = make_sim(cfg2)
+    for nc, (name, net) in zip(cfg.get('networks', []), a.networks.items()):
+        if nc['type'] in RANDOM_NETS and hasattr(net, 'edges') and len(net.edges.p1) >= 20:
+            nb = b.networks[name]
+            if len(net.edges.p1) == len(nb.edges.p1) and np.array_equal(net.edges.p1, nb.edges.p1) and np.array_equal(net.edges.p2, nb.edges.p2):
+                return 'network:' + nc['type'], f"changing rand_seed ({cfg['rand_seed']} -> {cfg2['rand_seed']}) left the {len(net.edges.p1)} initial edges of the random network `{name}` identical"
+    for da, db in zip(a.diseases(), b.diseases()):
+        if hasattr(da, 'infected') and 5 <= int(np.count_nonzero(da.infected)) and np.array_equal(np.asarray(da.infected.uids), np.asarray(db.infected.uids)) and len(da.infected.uids) < 0.9 * len(a.people.auids):
+            return 'init-infections', f"changing rand_seed left the {len(da.infected.uids)} initially infected agents of `{da.name}` identical"
+    return None
 
 
 def replay(ctx, data):
@@ -385,8 +412,7 @@ def replay(ctx, data):
         a = digest(run_ref(data['cfg']))
         return any(b is not None and a != b for b in (run_subprocess(data['cfg'], 'run', hashseed=hs) for hs in (1, 2)))
     if k == 'seedchange':
-        s1 = dict(seeds_inproc(data['cfg'])); s2 = dict(seeds_inproc(data['cfg2']))
-        return any(s1[t] == s2.get(t) for t in s1)
+        return oracle_seed_change(data['cfg'], data['cfg2']) is not None
     if k == 'reinit-seed-zero':
         sim = impl.build_sim(data['cfg']); sim.init()
         before = [d.seed for d in sim.dists.dists.values()]
